@@ -185,6 +185,12 @@ type StepCase struct {
 	NoHandlers     bool // no RETN/RETI handler registered
 	PendingRefused bool // a maskable request is pending with IFF1 clear: it is refused, stays pending, and the instruction runs as usual
 	MoveCPU        bool // chain mode: continue on a by-value copy of the CPU struct; the old struct is scribbled over
+	// RaiseDuring: a device raises a request from inside its callback while the
+	// instruction executes (1: NMI on the first memory access, 2: NMI on the last
+	// access made - memory or port, 3: a maskable mode-1 request on the first access).
+	// Requests are examined at the start of a Step: this Step is the instruction's,
+	// unchanged, and the request is still pending afterwards.
+	RaiseDuring int
 }
 
 // StepOutcome is what the monitor observed.
@@ -282,6 +288,26 @@ func (g *StepRig) Run(c *StepCase) (out StepOutcome) {
 	out.Info = g.Ref.Step()
 	out.Exp = FromRef(&g.Ref)
 
+	var raised *z80.Interrupt
+	if c.RaiseDuring != 0 {
+		cpu := g.CPU
+		raise := func() {
+			if raised == nil || c.RaiseDuring == 2 {
+				if c.RaiseDuring == 3 {
+					raised = z80.IM1Interrupt()
+				} else {
+					raised = z80.NMIInterrupt()
+				}
+				cpu.Interrupt = raised
+			}
+		}
+		g.EmuMem.Hook = func(*mon.Mem, mon.Access) { raise() }
+		g.EmuIO.Hook = func(*mon.IO, mon.Access) {
+			if c.RaiseDuring == 2 {
+				raise()
+			}
+		}
+	}
 	func() {
 		defer func() {
 			if p := recover(); p != nil {
@@ -291,6 +317,12 @@ func (g *StepRig) Run(c *StepCase) (out StepOutcome) {
 		}()
 		g.CPU.Step()
 	}()
+	if c.RaiseDuring != 0 {
+		g.EmuMem.Hook, g.EmuIO.Hook = nil, nil
+		if g.CPU.Interrupt != raised && out.Bad&BadPanic == 0 {
+			out.Bad |= BadState // raised during the instruction: examined at the start of the NEXT Step
+		}
+	}
 	out.Post = g.CPU.States
 	out.PostHALT = g.CPU.HALT
 	if c.PendingRefused && g.CPU.Interrupt != pendReq && out.Bad&BadPanic == 0 {
@@ -407,6 +439,7 @@ func (g *StepRig) Witness(enc Encoding, c *StepCase, o *StepOutcome) map[string]
 		"no_handlers":        c.NoHandlers,
 		"direct":             g.lastDirect,
 		"pending_refused":    c.PendingRefused,
+		"raise_during":       c.RaiseDuring,
 		"limit":              g.Limit,
 		"limit_zero":         g.LimitZero,
 		"handlers":           fmt.Sprintf("emu RETN=%d RETI=%d ref RETN=%d RETI=%d", g.RC.RETN, g.RC.RETI, g.Ref.RETN, g.Ref.RETI),
